@@ -244,7 +244,7 @@ class ExecMixin:
         if TRACE and os.environ.get("OSV_TRACE") == "2":
             print("  " * len(self.stack), f"    {name} := {short(v)}")
         if state.pc and isinstance(v, (Num, Bool, Str)):
-            v = replace(v, prov=v.prov | state.pc)
+            v = self.with_pc(v, state)
         if isinstance(v, Num) and v.sym is None and v.const is None and self.number_locals:
             # value numbering of sym-less locals: "the value of this variable in the current iteration of the active loops"
             v = replace(v, sym=("opq", fr.label, name, tuple(l.token for l in self.loops)))
